@@ -32,7 +32,7 @@ ASSUMPTIONS = [
 FORMS = ["gopher", "gophers", "gplus", "gpluss", "gdollar", "gbang", "http", "https", "head", "wap",
          "waphdr", "gemini", "spartan"]
 MUTATIONS = ["none", "none", "none", "nul", "msg0", "msgneg", "msghuge", "msgx", "msgon", "slash", "dslash",
-             "dotdot", "missing", "pctnul", "qmark", "bar", "dotseg", "dotseg"]
+             "dotdot", "missing", "pctnul", "qmark", "bar", "dotseg", "dotseg", "tslash2", "tslash2"]
 RAW = ["\t\r\n", "x\t\r\n", "x\tq\t\r\n", "\t\t\t\t\r\n", "gemini://[/\r\n", "gemini://[::1/x\r\n", "gemini://\r\n",
        "gemini://h\r\n", "gemini://h/GEMINI-QUERY/x\r\n", "gemini://h/GEMINI-QUERY/x?a%20b\r\n",
        "GET / HTTP/1.0\r\n", "GET /", "GET / HTTP/1.0\r\nAccept", "GET /?searchrequest HTTP/1.0\r\n\r\n",
@@ -108,6 +108,8 @@ def _mutate(sel, mut):
         return sel + "-missing"
     if mut == "dotseg":
         return (sel if sel != "/" else "") + "/."
+    if mut == "tslash2":
+        return (sel if sel != "/" else "") + "//"  # one '/' is stripped by the protocols: an alias ending in '/'
     if mut == "qmark":
         return sel + "?arg1 arg2"
     if mut == "bar":
